@@ -21,6 +21,9 @@ EXPLANATION = (
     'channel responder is subscribed before its first frame is dispatched; (d) stop_all_streams iterates a snapshot '
     'of the table and removes each entry in the iteration that failed it. Not decided: the behaviour over all peer '
     'histories and schedules beyond what these typestates imply.')
+EXPLANATION_ADDED = ("(e) resolved at least once: every exit of the client's reconnect listener fails the streams still registered and close() cancels that task; nothing unprotected precedes stop_all_streams() in the close sequence; the library's own sent-futures obey the same done() guard; resolve sites include set_result/set_exception taken as a value and called through a helper.")
+EXPLANATION = EXPLANATION.replace(' Not decided', ' ' + EXPLANATION_ADDED + ' Not decided', 1) \
+    if ' Not decided' in EXPLANATION else EXPLANATION + ' ' + EXPLANATION_ADDED
 ASSUMPTIONS = COMMON_ASSUMPTIONS + [
     'a legal peer sends nothing on a direction it has completed; the synthetic ERROR of the close sequence can '
     'arrive in any state',
